@@ -557,3 +557,19 @@ package tree
 //@     step [later_rounds_both_new_branches_get_a_non_negative_length] len(edges) > 0 ==> next(edges)[len(edges)] != nil && next(edges)[len(edges)].length >= 0.0 && next(edges)[len(edges) + 1] != nil && next(edges)[len(edges) + 1].length >= 0.0
 //@     invariant [at_least_one_branch_after_the_first_round] i >= 2 ==> len(edges) >= 1
 //@     step [two_branches_added_per_grafted_tip_one_or_two_in_the_first_round] len(next(edges)) == len(edges) + (len(edges) == 0 ? (rooted ? 2 : 1) : 2)
+
+//@ func (*tree.Tree).NewNode
+//@   requires INV() && ORI()
+//@   allocates Node, []string, []*Node, []*Edge
+//@   assigns nothing
+//@   ensures [fresh_isolated_node] fresh(result) && deg(result) == 0 && len(result.br) == 0 && result.name == "" && len(result.comment) == 0
+//@   ensures [own_fresh_adjacency_storage] fresh_arr(result.neigh) && fresh_arr(result.br) && fresh_arr(result.comment) && arr(result.neigh) != arr(result.br)
+//@   ensures [nobody_points_to_it] forall m *Node, k int :: {m.neigh[k]} allocated(m) && 0 <= k && k < deg(m) ==> m.neigh[k] != result
+//@   ensures [no_branch_ends_at_it] forall e *Edge :: {e.left} {e.right} allocated(e) ==> e.left != result && e.right != result
+//@   ensures [inv1] INV1()
+//@   ensures [inv2] INV2()
+//@   ensures [inv3] INV3()
+//@   ensures [inv5] INV5()
+//@   ensures [own] OWN()
+//@   ensures [inve] INVE()
+//@   ensures [orientation] ORI()
